@@ -1099,6 +1099,32 @@ pub fn program(p: &mut Prng) -> String {
     Gen::new(p).program()
 }
 
+/// Programs whose shapes come from `usize` constants supplied from outside: arrays of constant
+/// size in struct fields, parameters, tuples, nested arrays, repeat expressions and loops.
+pub fn const_sized_program(p: &mut Prng) -> String {
+    let ty = *p.pick(&["u8", "u16", "bool", "i8"]);
+    let zero = match ty {
+        "bool" => "false".to_string(),
+        t => format!("0{t}"),
+    };
+    let fold = if ty == "bool" { "^" } else { *p.pick(&["^", "&", "|"]) };
+    let mut out = String::from("const ROWS: usize = PARTY_0::ROWS;\n");
+    let second = p.chance(1, 2);
+    if second {
+        out.push_str(*p.pick(&["const COLS: usize = PARTY_1::COLS;\n", "const COLS: usize = max(PARTY_1::COLS, ROWS);\n", "const COLS: usize = ROWS + PARTY_1::COLS;\n"]));
+    }
+    let cols = if second { "COLS" } else { "ROWS" };
+    match p.below(6) {
+        0 => out.push_str(&format!("\nstruct Batch {{\n    bias: {ty},\n    items: [{ty}; ROWS],\n}}\n\npub fn main(x: {ty}, y: {ty}) -> {ty} {{\n    let batch = Batch {{ bias: x, items: [x; ROWS] }};\n    let pair = (batch, y);\n    pair.1\n}}\n")),
+        1 => out.push_str(&format!("\nstruct Batch {{\n    bias: {ty},\n    items: [{ty}; ROWS],\n}}\n\npub fn main(batch: Batch, y: {ty}) -> {ty} {{\n    let mut acc = batch.bias {fold} y;\n    for item in batch.items {{\n        acc = acc {fold} item;\n    }}\n    acc\n}}\n")),
+        2 => out.push_str(&format!("\npub fn main(a: [{ty}; ROWS], b: [{ty}; {cols}], y: {ty}) -> ({ty}, [{ty}; ROWS]) {{\n    let mut acc = y;\n    for v in b {{\n        acc = acc {fold} v;\n    }}\n    (acc, a)\n}}\n")),
+        3 => out.push_str(&format!("\npub fn main(m: [[{ty}; {cols}]; ROWS], y: {ty}) -> {ty} {{\n    let mut acc = y;\n    for row in m {{\n        for v in row {{\n            acc = acc {fold} v;\n        }}\n    }}\n    acc\n}}\n")),
+        4 => out.push_str(&format!("\nstruct Inner {{\n    v: [{ty}; {cols}],\n}}\n\nstruct Outer {{\n    first: Inner,\n    tag: bool,\n    rest: [Inner; ROWS],\n}}\n\npub fn main(o: Outer, y: {ty}) -> ({ty}, bool) {{\n    let mut acc = y;\n    for i in o.rest {{\n        for v in i.v {{\n            acc = acc {fold} v;\n        }}\n    }}\n    (acc, o.tag)\n}}\n")),
+        _ => out.push_str(&format!("\npub fn main(x: {ty}, c: bool) -> ([{ty}; ROWS], {ty}) {{\n    let mut a = [x; ROWS];\n    let t = (a, {zero}, [c; {cols}]);\n    if c {{\n        a[0] = {zero};\n    }}\n    (a, t.1)\n}}\n")),
+    }
+    out
+}
+
 pub const WORD_MARKER: &str = "// word size";
 
 /// Small programs around what depends on the machine word if the compiler is careless: 64-bit
@@ -1524,6 +1550,19 @@ pub fn huge_program(p: &mut Prng) -> String {
     let pick = |p: &mut Prng| params[p.usize_below(params.len())].clone();
     let mut terms = vec![];
     for _ in 0..p.range(44, 60) {
+        let op = *p.pick(&["*", "/", "%", "/", "*"]);
+        terms.push(format!("(({} {op} {}) {} {})", pick(p), pick(p), p.pick(&["/", "*", "%"]), pick(p)));
+    }
+    format!("pub fn main({sig}) -> u64 {{\n    {}\n}}\n", terms.join(" ^ "))
+}
+
+/// More than 2^24 gates without gate de-duplication (about 1 100 wide multiplications / divisions).
+pub fn giant_program(p: &mut Prng) -> String {
+    let params: Vec<String> = (0..6).map(|i| format!("p{i}")).collect();
+    let sig = params.iter().map(|n| format!("{n}: u64")).collect::<Vec<_>>().join(", ");
+    let pick = |p: &mut Prng| params[p.usize_below(params.len())].clone();
+    let mut terms = vec![];
+    for _ in 0..p.range(420, 460) {
         let op = *p.pick(&["*", "/", "%", "/", "*"]);
         terms.push(format!("(({} {op} {}) {} {})", pick(p), pick(p), p.pick(&["/", "*", "%"]), pick(p)));
     }
